@@ -18,6 +18,9 @@ func main() {
 	if len(os.Args) > 1 && os.Args[1] == "replay" {
 		os.Exit(replay(os.Args[2:]))
 	}
+	if len(os.Args) > 1 && os.Args[1] == "enums" {
+		os.Exit(listEnums(os.Args[2:]))
+	}
 	if len(os.Args) > 1 && os.Args[1] == "ssa" {
 		os.Exit(dumpSSA(os.Args[2:]))
 	}
